@@ -26,6 +26,36 @@ def enum_or_int(cls, v):
     return int(v) if PLAIN_INTS else m
 
 
+POSITIONAL = False
+_PARAM_ORDER = None
+
+
+def build(fn, **kw):
+    """Call a constructor / class method of the library.  Usually by keyword; for every seventh case of a stream the
+    leading arguments are passed POSITIONALLY in the documented order - the order recorded from the unchanged tree in
+    harness/param_order.json (tools/gen_param_order.py), never the live signature."""
+    global _PARAM_ORDER
+    if not POSITIONAL:
+        return fn(**kw)
+    if _PARAM_ORDER is None:
+        try:
+            _PARAM_ORDER = json.load(open(os.path.join(os.path.dirname(__file__), "param_order.json")))
+        except Exception:
+            _PARAM_ORDER = {}
+    owner = getattr(fn, "__self__", None)
+    key = fn.__name__ if isinstance(fn, type) else ("%s.%s" % (owner.__name__, fn.__name__) if isinstance(owner, type) else None)
+    order = _PARAM_ORDER.get(key)
+    if not order:
+        return fn(**kw)
+    kw = dict(kw)
+    args = []
+    for n in order:
+        if n not in kw:
+            break
+        args.append(kw.pop(n))
+    return fn(*args, **kw)
+
+
 # ---------------------------------------------------------------- exceptions
 E_VALUE, E_TOOSHORT, E_UNICODE, E_CRC, E_VERSION, E_TLV, E_VERIFPARAMS, E_OVERFLOW, E_FNF = 1, 2, 3, 4, 5, 6, 7, 8, 9
 E_TYPE, E_INDEX, E_STRUCT, E_ATTR, E_KEY, E_ASSERT, E_FUEL, E_OTHER = 20, 21, 22, 23, 24, 25, 98, 99
@@ -440,8 +470,10 @@ class Check:
                     ires = []
                     for k_, (op, a) in enumerate(cases):
                         globals()["PLAIN_INTS"] = (k_ % 5 == 4)
+                        globals()["POSITIONAL"] = (k_ % 7 == 6)
                         ires.append(run_impl(prop.impl, op, a))
                     globals()["PLAIN_INTS"] = False
+                    globals()["POSITIONAL"] = False
                     nm = 0
                     for c, m, i in zip(cases, mres, ires):
                         n_eval += 1
